@@ -1077,6 +1077,10 @@ func (c *Conn) Write(b []byte) (int, error) {
 // has not yet completed. See SetDeadline, SetReadDeadline, and
 // SetWriteDeadline.
 func (c *Conn) Read(b []byte) (int, error) {
+	// Close 之后不再交付任何数据（包括关闭前已缓冲的明文）
+	if atomic.LoadInt32(&c.activeCall)&1 != 0 {
+		return 0, net.ErrClosed
+	}
 	if err := c.Handshake(); err != nil {
 		return 0, err
 	}
